@@ -104,7 +104,9 @@ def gen_cases(tier, r):
     keys = list(parts)
     keys += [' T.NS , s.Reverse', 'R.we.REV,i', 't . sn', 'i,s,r,t', 's,r,t', 't.ns,s.rev', 's.rev,t.sn.rev,r.ew',
              'r.we,r.ew', 't,t.rev', 'i.rev', 'I.NUM.REVERSE',
-             's,t,s', 'i,s,i', 'r.rev,s,r.rev', 'S.Reverse, r.we, s.REV', 't.ns,r,t.ns', 's,s', 't.rev,i,t.rev,s']   # a key component may recur: every occurrence is a pass
+             's,t,s', 'i,s,i', 'r.rev,s,r.rev', 'S.Reverse, r.we, s.REV', 't.ns,r,t.ns', 's,s', 't.rev,i,t.rev,s',
+             # the same variable under two DIFFERENT sub-methods: the later pass only ties what the earlier one ordered (N/S or E/W of one number)
+             't.sn,t.num', 't.ns,t', 'r.ew, s, r', 'r.we,r.num', 't.sn,s,t.num.rev', 't.num,t.sn', 'r,r.ew.rev']   # a key component may recur: every occurrence is a pass
     bad = ['x', 'q.ns', 't.ew', 'r.ns', 's.ns', 'i.we', '', 't,,s', 't,', ',', 'x.ns', 'foo.ns', 'north', 't.nsx', 'xt', 't.foo',
            't.ns.bar', 'u.num', '.rev', 'rev', '5', 't;s', 'a,b', 'e.w']
     keys += bad
